@@ -20,6 +20,18 @@ ItemsObject == {
   It("ext", "interface", "X", <<"d">>, <<>>, <<>>),
   It("def", "interface", "X", <<>>, <<>>, <<"f">>) }
 
+\* interfaces: every single kind of contribution an extension can make on its own (implements only, directive only,
+\* fields only), and the same for an object extension that only adds an interface
+ItemsInterface == {
+  It("def", "interface", "X", <<>>, <<>>, <<"f">>),
+  It("def", "interface", "X", <<"d">>, <<"I">>, <<"f", "g">>),
+  It("ext", "interface", "X", <<>>, <<>>, <<"a">>),
+  It("ext", "interface", "X", <<"d">>, <<>>, <<>>),
+  It("ext", "interface", "X", <<>>, <<"J">>, <<>>),
+  It("ext", "interface", "X", <<>>, <<"I">>, <<"f">>),
+  It("ext", "object", "X", <<>>, <<"J">>, <<>>),
+  It("def", "object", "X", <<>>, <<>>, <<"f">>) }
+
 ItemsUnionEnum == {
   It("def", "union", "X", <<>>, <<>>, <<"A">>),
   It("def", "union", "X", <<"d">>, <<>>, <<"A", "B">>),
